@@ -270,6 +270,26 @@ pub fn judge(w: &World, run: &Run, focus: Option<&str>) -> (Verdict, RunInfo) {
         info.tree_shape = h;
     }
 
+    // ------------------------------------------------------------------ S3 on the delivered texts
+    // Evaluated on the model's own parse of every delivered text, before anything else: a tree
+    // with an ERROR node and no diagnostic is not gated, so the analyser runs on a broken tree
+    // and may panic, which would otherwise hide the violation behind a skip.
+    for inst in &m.insts {
+        if let (Some(_), Some(facts)) = (&inst.text, &inst.facts) {
+            if facts.have_parse && facts.has_error_node && facts.syn.is_empty() {
+                soft!(info, focus, viol(
+                    "S3",
+                    C12,
+                    "error-node-without-diagnostic",
+                    format!(
+                        "`{}`: the tree of the delivered text has an ERROR node or token but the parse reports no diagnostic",
+                        inst.target
+                    ),
+                ));
+            }
+        }
+    }
+
     // ------------------------------------------------------------------ containment / R1
     let obs: &Obs = match &run.result {
         RunResult::Budget => {
